@@ -8,12 +8,15 @@ operation: all it needs is that every pivot `p` actually divided by satisfies `x
   * In the ring of dual numbers `ℝ[ε]/(ε²)` (value, derivative), `Mathlib`'s `TrivSqZeroExt ℝ ℝ`, it is
     "the VALUE of the pivot is non-zero" (`C13_sound_dual_numbers`): the equation `A x = b` then holds
     in value AND in first derivative.
-PARTIAL (DESIGN.md "C13 partial"): (i) that a non-singular real matrix makes every pivot's value
-non-zero, and (ii) the refinement from the list-based `Dual`/`Dual2` arithmetic to these rings
-(per variable name, as done for C01), are not yet theorems; both are covered by the correspondence
-run (residual and row-permutation streams, all A/b kind pairings).
+  * Over an ordered field (ℝ) with the code's magnitude comparison, a system with EXACTLY ONE solution
+    never meets a zero pivot, so the solver returns that solution (`C13_nonsingular`): if the current
+    column were zero from the diagonal down, the partially eliminated matrix would have a kernel vector.
+PARTIAL (DESIGN.md "C13 partial"): the refinement from the list-based `Dual`/`Dual2` arithmetic to the
+ring of dual numbers (per variable name, as done for C01/C02) is not yet a theorem for the solver; it is
+covered by the correspondence run (residual and row-permutation streams, all A/b kind pairings).
 -/
-import RateslibModel.Proofs.Gauss3
+import RateslibModel.Proofs.Gauss4
+import RateslibModel.Analysis.RealInst
 import Mathlib.Algebra.TrivSqZeroExt.Basic
 import Mathlib.Data.Real.Basic
 namespace Rateslib
@@ -79,6 +82,40 @@ theorem C13_sound_field {K : Type} [Field K] (ge : K → K → Bool) (n : Nat) (
     (hp : PivotsGood ge n (List.range n) s) :
     ∀ r, r < n → ∑ c ∈ range n, s.a r c * (@dsolve21 K (ringLinOps ge) n s) c = s.b r :=
   C13_sound ge n s hp
+
+/-- NON-SINGULAR SYSTEMS: over an ordered field, with the code's pivot rule (largest magnitude in the
+column from the diagonal down), a system that has exactly one solution never divides by zero, and the
+value returned is that solution. -/
+theorem C13_nonsingular {K : Type} [Field K] [LinearOrder K] [IsStrictOrderedRing K] (n : Nat) (s : Sys K)
+    (hex : ∃ x0, Sol n s x0) (huniq : ∀ x y, Sol n s x → Sol n s y → ∀ c, c < n → x c = y c) :
+    PivotsGood absGeK n (List.range n) s ∧
+    (∀ r, r < n → ∑ c ∈ range n, s.a r c * (@dsolve21 K (ringLinOps absGeK) n s) c = s.b r) ∧
+    (∀ x, Sol n s x → ∀ c, c < n → x c = (@dsolve21 K (ringLinOps absGeK) n s) c) := by
+  have hp : PivotsGood absGeK n (List.range n) s := by
+    rw [List.range_eq_range']
+    exact pivots_good_of_unique n n 0 s (by omega) (fun r c hc _ _ => by omega) (fun i hi => by omega)
+      hex huniq
+  have hs := dsolve21_sound absGeK n s hp
+  exact ⟨hp, hs, fun x hx c hc => huniq x _ hx hs c hc⟩
+
+/-- at `K = ℝ` the comparison of the theorem is the comparison the model's scalar instance uses -/
+theorem C13_absGe_real (x y : ℝ) : @LinOps.absGe ℝ linOpsScalar x y = absGeK x y := by
+  have habs : ∀ t : ℝ, absS t = |t| := by
+    intro t
+    unfold absS
+    by_cases h : t < 0
+    · have : Transc.ltb t 0 = true := decide_eq_true h
+      rw [if_pos this, abs_of_neg h]
+    · have : Transc.ltb t 0 = false := decide_eq_false h
+      rw [this]; simp only [Bool.false_eq_true, if_false]
+      exact (abs_of_nonneg (not_lt.mp h)).symm
+  show (!Transc.ltb (absS x) (absS y)) = absGeK x y
+  rw [habs, habs]
+  unfold absGeK
+  show (!decide (|x| < |y|)) = decide (|y| ≤ |x|)
+  by_cases h : |x| < |y|
+  · simp [h, not_le.mpr h]
+  · simp [h, not_lt.mp h]
 
 /-! ### dual numbers: the solution carries the true first derivative -/
 
